@@ -11,6 +11,7 @@ package main
 //        mig DIR v=<0|1> d=<0|1> r=<0|1> fault=<none|load|write:K|verify|dropkey|unlink:K|…> pre=<none|valid|stub|junk> | name=NAME | folder=<file:key=hash,…;…>
 // reply: res=<success|skipped|failed:PHASE> v1=<same|gone|left:K> hyd=<0|1|kept> load=<match|dup-ok|none|DIFF…> name=<ok|na|BAD…>
 //
+//   (pre=newer: the file an earlier run wrote, with one key rewritten since — same name, same keys, one other value)
 //   pre = what is at the target path (<folder>.hyd) before the run: nothing; a valid V2 file of another swamp name holding a
 //   record the folder does not have and a newer value of one it has; a header-only file (an interrupted earlier run); ten bytes of junk.
 //   hyd=kept: that file is still there, byte for byte.
@@ -26,7 +27,6 @@ package main
 
 import (
 	"bufio"
-	"time"
 	"bytes"
 	"crypto/sha1"
 	"encoding/binary"
@@ -44,7 +44,9 @@ import (
 	"sort"
 	"strings"
 	"sync"
+	"sync/atomic"
 	"syscall"
+	"time"
 
 	"github.com/golang/snappy"
 	"github.com/hydraide/hydraide/app/core/filesystem"
@@ -344,6 +346,7 @@ func c23Gen(rng *rand.Rand, tier string, w *bufio.Writer) {
 			}
 		}
 	}
+	var roots []string
 	for ci := 0; ci < nFolders; ci++ {
 		kind := "history"
 		switch {
@@ -454,9 +457,18 @@ func c23Gen(rng *rand.Rand, tier string, w *bufio.Writer) {
 		for _, c := range combos {
 			fmt.Fprintf(w, "mig %s v=%d d=%d r=%d fault=none pre=none %s\n", root, c[0], c[1], c[2], tail)
 		}
+		// the re-run: an earlier run without DeleteOld, then this one (the target then holds exactly the legacy data)
+		for _, c := range [][3]int{{1, 1, 0}, {0, 1, 0}, {1, 0, 0}, {1, 1, 1}} {
+			fmt.Fprintf(w, "mig %s v=%d d=%d r=%d fault=rerun pre=none %s\n", root, c[0], c[1], c[2], tail)
+		}
+		roots = append(roots, root)
 		// a target path that is not free: every third folder (and the special ones), with and without a failure
 		if ci%3 == 1 || ci < 6 {
-			for _, pre := range []string{"valid", "stub", "junk"} {
+			pres := []string{"valid", "stub", "junk"}
+			if kind == "history" {
+				pres = append(pres, "newer")
+			}
+			for _, pre := range pres {
 				for _, c := range [][3]int{{1, 1, 0}, {0, 1, 0}, {1, 0, 0}, {1, 1, 1}} {
 					fmt.Fprintf(w, "mig %s v=%d d=%d r=%d fault=none pre=%s %s\n", root, c[0], c[1], c[2], pre, tail)
 				}
@@ -476,7 +488,7 @@ func c23Gen(rng *rand.Rand, tier string, w *bufio.Writer) {
 		}
 		// injected failures (each on the combinations where the step exists)
 		nChunks := len(fo)
-		faults := []string{"write:1", "write:2", "write:3", "verify", "meta", "rmdir"}
+		faults := []string{"write:1", "write:2", "write:3", "fsync", "syncorder", "verify", "meta", "rmdir"}
 		nData := nChunks - 1 // chunk files besides the meta file
 		if nData >= 1 {
 			faults = append(faults, "load")
@@ -512,11 +524,25 @@ func c23Gen(rng *rand.Rand, tier string, w *bufio.Writer) {
 				if ft == "verify" && c[0] == 0 {
 					continue
 				}
+				if ft == "syncorder" && c[1] == 0 {
+					continue
+				}
 				if (strings.HasPrefix(ft, "unlink") || ft == "rmdir") && c[1] == 0 {
 					continue
 				}
 				fmt.Fprintf(w, "mig %s v=%d d=%d r=%d fault=%s pre=none %s\n", root, c[0], c[1], c[2], ft, tail)
 			}
+		}
+	}
+	// several swamps in one run, with a worker pool: every swamp must end as it does alone
+	if len(roots) > 0 {
+		n := min(len(roots), 16)
+		if tier == "thorough" {
+			n = min(len(roots), 60)
+		}
+		fmt.Fprintln(w, "case multi several swamps in one data directory")
+		for _, c := range [][4]int{{4, 1, 1, 0}, {1, 1, 1, 0}, {8, 0, 1, 0}, {4, 1, 0, 0}, {4, 1, 1, 1}} {
+			fmt.Fprintf(w, "multi par=%d v=%d d=%d r=%d n=%d | %s\n", c[0], c[1], c[2], c[3], n, strings.Join(roots[:n], " "))
 		}
 	}
 }
@@ -565,6 +591,26 @@ func c23Plant(hyd, kind, swampName string, fo []c23File) {
 		for _, f := range fo {
 			if len(f.segs) > 0 && f.segs[0].key != "" && len(f.segs[0].key) < 1000 {
 				_ = w.WriteEntry(v2.Entry{Operation: v2.OpInsert, Key: f.segs[0].key, Data: mk(f.segs[0].key)})
+				break
+			}
+		}
+		_ = w.Close()
+	case "newer":
+		// an earlier run without DeleteOld, after which a V2 engine rewrote one key: same name, same keys, one newer value
+		_ = c23Migrate(filepath.Dir(filepath.Dir(filepath.Dir(filepath.Dir(hyd)))), false, false, false)
+		w, err := v2.NewFileWriterWithName(hyd, v2.DefaultMaxBlockSize, swampName)
+		if err != nil {
+			return
+		}
+		for _, f := range fo {
+			if len(f.segs) > 0 {
+				t := treasure.New(nil)
+				g := t.StartTreasureGuard(true, guard.BodyAuthID)
+				t.BodySetKey(g, f.segs[0].key)
+				t.SetContentString(g, "rewritten-by-the-v2-engine")
+				bs, _ := t.ConvertToByte(g)
+				t.ReleaseTreasureGuard(g)
+				_ = w.WriteEntry(v2.Entry{Operation: v2.OpUpdate, Key: f.segs[0].key, Data: bs})
 				break
 			}
 		}
@@ -746,6 +792,8 @@ func c23Child(dataPath, swamp string, v, d, r string, fault string, files []stri
 		fsize = preSize + 8
 	case fault == "write:3": // the first block
 		fsize = 64 + len(name) + 8
+	case fault == "fsync": // FileWriter.Close cannot make the new file durable
+		st = []string{"-e", "trace=fsync,fdatasync", "-e", "inject=fsync,fdatasync:error=EIO:when=1", "-P", hyd}
 	case fault == "verify": // the writer never reads the .hyd file: the first read of that path is the verifying reader
 		st = []string{"-e", "trace=read,pread64", "-e", "inject=read,pread64:error=EIO:when=1", "-P", hyd}
 	case strings.HasPrefix(fault, "unlink:"):
@@ -757,7 +805,12 @@ func c23Child(dataPath, swamp string, v, d, r string, fault string, files []stri
 		st = []string{"-e", "trace=unlinkat,unlink", "-e", "inject=unlinkat,unlink:error=EIO:when=1", "-P", filepath.Join(swamp, files[k])}
 	}
 	var cmd *exec.Cmd
-	if st != nil {
+	traceFile := ""
+	if fault == "syncorder" {
+		// no injection: the order of the system calls is observed — the new file must be fsync'ed before the first V1 file is unlinked
+		traceFile = filepath.Join(filepath.Dir(dataPath), "syscalls.txt")
+		cmd = exec.Command("strace", "-f", "-y", "-o", traceFile, "-e", "trace=fsync,fdatasync,unlink,unlinkat", exe, "run", "C23worker")
+	} else if st != nil {
 		args := append([]string{"-f", "--seccomp-bpf", "-o", "/dev/null"}, st...)
 		cmd = exec.Command("strace", append(args, exe, "run", "C23worker")...)
 	} else {
@@ -768,6 +821,22 @@ func c23Child(dataPath, swamp string, v, d, r string, fault string, files []stri
 	cmd.Stdout, cmd.Stderr = &out, &errb
 	if err := cmd.Run(); err != nil && out.Len() == 0 {
 		return "child-error:" + strings.ReplaceAll(strings.TrimSpace(errb.String()), " ", "_")
+	}
+	if traceFile != "" {
+		tb, _ := os.ReadFile(traceFile)
+		synced, bad := false, false
+		for _, l := range strings.Split(string(tb), "\n") {
+			switch {
+			case (strings.Contains(l, "fsync(") || strings.Contains(l, "fdatasync(")) && strings.Contains(l, ".hyd>") && !strings.Contains(l, "= -1"):
+				// (with -f a call may be printed as `<unfinished ...>` + `resumed`: the writer does not return from Close before it is back)
+				synced = true
+			case strings.Contains(l, "unlink") && strings.Contains(l, filepath.Base(swamp)+"/") && !synced:
+				bad = true
+			}
+		}
+		if bad {
+			return strings.TrimSpace(out.String()) + "|unsynced"
+		}
 	}
 	return strings.TrimSpace(out.String())
 }
@@ -798,7 +867,11 @@ func c23Run(in *bufio.Scanner, w *bufio.Writer) {
 		go func() {
 			defer wg.Done()
 			for i := range jobs {
-				out[i] = c23One(scratch, i, lines[i])
+				if strings.HasPrefix(lines[i], "multi ") {
+					out[i] = c23Multi(scratch, i, lines[i])
+				} else {
+					out[i] = c23One(scratch, i, lines[i])
+				}
 			}
 		}()
 	}
@@ -806,7 +879,7 @@ func c23Run(in *bufio.Scanner, w *bufio.Writer) {
 		switch {
 		case strings.HasPrefix(line, "case "):
 			out[i] = line
-		case strings.HasPrefix(line, "mig "):
+		case strings.HasPrefix(line, "mig "), strings.HasPrefix(line, "multi "):
 			jobs <- i
 		default:
 			out[i] = "bad-op"
@@ -817,6 +890,85 @@ func c23Run(in *bufio.Scanner, w *bufio.Writer) {
 	for _, l := range out {
 		fmt.Fprintln(w, l)
 	}
+}
+
+var c23Seq int64 = 100000
+
+// c23Multi: the swamps of several cases in ONE data directory, migrated by one run with `par` workers; every swamp is
+// then assessed exactly as after a run of its own and must end in the same state
+func c23Multi(scratch string, n int, line string) string {
+	parts := strings.SplitN(line, " | ", 2)
+	f := strings.Fields(parts[0])
+	if len(parts) != 2 || len(f) != 6 {
+		return "bad-op"
+	}
+	var par int
+	fmt.Sscanf(f[1], "par=%d", &par)
+	v, d, r := strings.TrimPrefix(f[2], "v=") == "1", strings.TrimPrefix(f[3], "d=") == "1", strings.TrimPrefix(f[4], "r=") == "1"
+	srcs := strings.Fields(parts[1])
+	root := filepath.Join(scratch, fmt.Sprintf("multi%05d", n))
+	defer os.RemoveAll(root)
+	type sw struct {
+		src, swamp, name string
+		before           map[string]string
+		fo               []c23File
+		v1               map[string]string
+	}
+	var sws []sw
+	for i, src := range srcs {
+		dst := filepath.Join(root, "data", fmt.Sprintf("c%03d", i))
+		if err := c23CopyTree(filepath.Join(src, "data"), dst); err != nil {
+			return "copy-error"
+		}
+		swamp := c23FindSwamp(dst)
+		nm, ok := c23MetaName(swamp)
+		fo, err := c23ReadFolder(swamp)
+		if swamp == "" || !ok || err != nil {
+			return "read-error"
+		}
+		sws = append(sws, sw{src, swamp, nm, c23DirState(swamp), fo, c23LoadV1(swamp)})
+	}
+	m, err := migrator.New(migrator.Config{DataPath: filepath.Join(root, "data"), Verify: v, DeleteOld: d, DryRun: r, Parallel: par, StopOnError: false})
+	if err != nil {
+		return "rig-error:new"
+	}
+	res, err := m.Run()
+	if err != nil || res == nil {
+		return "rig-error:run"
+	}
+	failed := map[string]string{}
+	for _, fs := range res.FailedSwamps {
+		failed[fs.Path] = fs.Phase
+	}
+	diff, first := 0, ""
+	for _, x := range sws {
+		records := 0
+		for _, fl := range x.fo {
+			records += len(fl.segs)
+		}
+		r1 := "success"
+		if ph, bad := failed[x.swamp]; bad {
+			r1 = "failed:" + ph
+		} else if records == 0 {
+			r1 = "skipped"
+		}
+		together := c23Assess(x.swamp, r1, x.before, x.fo, x.v1, x.name, "", 0, line)
+		alone := c23One(scratch, int(atomic.AddInt64(&c23Seq, 1)), fmt.Sprintf("mig %s v=%s d=%s r=%s fault=none pre=none | name=x | folder=x", x.src,
+			strings.TrimPrefix(f[2], "v="), strings.TrimPrefix(f[3], "d="), strings.TrimPrefix(f[4], "r=")))
+		if together != alone {
+			diff++
+			if first == "" {
+				first = fmt.Sprintf("%s:together[%s]alone[%s]", filepath.Base(x.src), strings.ReplaceAll(together, " ", ","), strings.ReplaceAll(alone, " ", ","))
+			}
+		}
+	}
+	if int64(len(sws)) != res.ProcessedSwamps {
+		return fmt.Sprintf("multi n=%d diff=%d processed=%d", len(sws), diff+1, res.ProcessedSwamps)
+	}
+	if diff > 0 {
+		return fmt.Sprintf("multi n=%d diff=%d first=%s", len(sws), diff, first)
+	}
+	return fmt.Sprintf("multi n=%d diff=0", len(sws))
 }
 
 func c23One(scratch string, n int, line string) string {
@@ -863,9 +1015,13 @@ func c23One(scratch string, n int, line string) string {
 			return "plant-error"
 		}
 	}
-	res := ""
+	res, firstRes := "", ""
 	switch {
 	case fault == "none":
+		res = c23Migrate(filepath.Join(root, "data"), v == "1", d == "1", r == "1")
+	case fault == "rerun":
+		// an earlier run of the same swamp without DeleteOld and without DryRun came first
+		firstRes = strings.SplitN(c23Migrate(filepath.Join(root, "data"), v == "1", false, false), ":", 2)[0]
 		res = c23Migrate(filepath.Join(root, "data"), v == "1", d == "1", r == "1")
 	case fault == "dropkey":
 		c23Drop.Store(hydPath, true)
@@ -881,6 +1037,23 @@ func c23One(scratch string, n int, line string) string {
 		}
 		res = c23Child(filepath.Join(root, "data"), swamp, v, d, r, fault, files, chunks, wantName, preSize)
 	}
+	unsynced := false
+	if strings.HasSuffix(res, "|unsynced") {
+		res, unsynced = strings.TrimSuffix(res, "|unsynced"), true
+	}
+	out := c23Assess(swamp, res, before, fo, v1, wantName, preHash, preSize, line)
+	if unsynced {
+		out = strings.Replace(out, " hyd=1 ", " hyd=unsynced ", 1)
+	}
+	if firstRes != "" {
+		out += " first=" + firstRes
+	}
+	return out
+}
+
+// c23Assess: what is on disk after the run, against what was there before
+func c23Assess(swamp, res string, before map[string]string, fo []c23File, v1 map[string]string, wantName, preHash string, preSize int, line string) string {
+	hydPath := swamp + ".hyd"
 	// V1 files afterwards
 	after := c23DirState(swamp)
 	v1st := "same"
